@@ -377,6 +377,19 @@ theorem request_hold {A : Nat → Attempt → Prop} (rid : Nat) : ∀ (script : 
     | some e0 => exact HoldOnly.refl _ _
     | none =>
     dsimp only
+    -- a `pool_timeout` that `queue.get` rejects: `ValueError` out of `_get_conn`, the state is untouched
+    rcases getConnT_cases s rc.badPoolTimeout with hT | ⟨hT, -⟩
+    rotate_left
+    · rw [hT]
+      dsimp only
+      have pp := (discard_safe s none).prov p
+      have pd := discard_none_inv h
+      split
+      · exact HoldOnly.refl _ _
+      · exact afterDiscard s none _ (HoldOnly.refl _ _)
+      · exact afterDiscard s none _ (HoldOnly.refl _ _)
+      · exact afterDiscardRec s none _ _ (HoldOnly.refl _ _) pp pd
+    rw [hT]
     have kg : HoldOnly none s (getConn s).1 := HoldOnly.of_keepAll (getConn_keep s)
     generalize hg : getConn s = res at kg
     obtain ⟨s1, eg⟩ := res
@@ -393,10 +406,10 @@ theorem request_hold {A : Nat → Attempt → Prop} (rid : Nat) : ∀ (script : 
       all_goals
         rename_i hh
         rcases hcls with ⟨hcl, _⟩ | hcl
-        · have pd := discard_none_closed_inv h hcl
+        · have pd := discard_none_inv h
           first
-            | exact afterDiscard _ _ _ kg
-            | exact afterDiscardRec _ _ _ _ kg pp pd
+            | exact afterDiscard s1 none _ kg
+            | exact afterDiscardRec s1 none _ _ kg pp pd
         · rw [hcl, handleError_emptyPool] at hh
           cases hh
     | ok c =>
